@@ -31,11 +31,13 @@ def alnSays (P : Proc) (genes : List GeneRec) (ignore : Bool) (dflt : String) (v
     loaded genes only through the genes the alignment overlaps (a region that gives the alignment its full gene view gives it
     the answers of the whole annotation) - its isoform list (the `__eq__` field that is not a function
     of the alignment alone) and the +1 / -1 entries of its profile with their features and its read group; and the assigner
-    never produces `suspended` (only the resolver does, C08 `suspended_only_by_resolver`).  Monitored on the real
-    constructors by the oracle (`marks_local`); for the profiles it follows from the `…_partial` meaning theorems on `Hyp`. -/
+    never produces `suspended` (only the resolver does, C08 `suspended_only_by_resolver`).  Only the COUNTED values v = +1 / -1
+    are asked to be local (a 0 or a polyA mask -2 of a feature of a gene that is not loaded has no counterpart).  INSTANCES:
+    Props/C13Local.lean proves it for the real exon / intron profile construction (`exonProc_local`, `intronProc_local`, from the
+    `…_partial` meaning theorems on `Hyp`) and for the table-driven processing of the driver (`tableProc_local`). -/
 structure Local (P : Proc) (genes : List GeneRec) (all : List Aln) : Prop where
   isoforms : ∀ R, ∀ a ∈ all, view a (loadGenes genes R) = view a genes → P.isoforms (loadGenes genes R) a = P.isoforms genes a
-  says : ∀ R, ∀ a ∈ all, view a (loadGenes genes R) = view a genes → ∀ ignore dflt v k g,
+  says : ∀ R, ∀ a ∈ all, view a (loadGenes genes R) = view a genes → ∀ ignore dflt v k g, (v = 1 ∨ v = -1) →
     (P.ev (loadGenes genes R) a).any (evSays ignore dflt v k g) = (P.ev genes a).any (evSays ignore dflt v k g)
   alive : ∀ G a, P.atype G a ≠ .suspended
 
@@ -61,7 +63,8 @@ theorem readItems_of (genes : List GeneRec) (P : Proc) (all : List Aln) (out : L
     includes / excludes the feature, never 2, never 0. -/
 theorem one_record_per_alignment (genes : List GeneRec) (P : Proc) (all : List Aln) (hP : Local P genes all)
     (out : List (Iv × List Aln)) (hrid : (all.map (·.rid)).Nodup) (hin : ∀ p ∈ out, ∀ a ∈ p.2, a ∈ all)
-    (hcov : ∀ a ∈ all, ∃ p ∈ out, a ∈ p.2) (a : Aln) (ha : a ∈ all) (ignore : Bool) (dflt : String) (v : Int) (k : CoordKey) (g : String) :
+    (hcov : ∀ a ∈ all, ∃ p ∈ out, a ∈ p.2) (a : Aln) (ha : a ∈ all) (ignore : Bool) (dflt : String) (v : Int) (hv1 : v = 1 ∨ v = -1)
+    (k : CoordKey) (g : String) :
     ∃ es, keptEvents (chrItems true genes P out) a.rid = some es ∧
       es.countP (evSays ignore dflt v k g) = if alnSays P genes ignore dflt v k g a then 1 else 0 := by
   have hof := readItems_of genes P all out hrid hin a ha true
@@ -75,7 +78,7 @@ theorem one_record_per_alignment (genes : List GeneRec) (P : Proc) (all : List A
     obtain ⟨p, hp, hap, rfl⟩ := hof it hit
     have hv := view_repaired genes p a hap
     refine ⟨by simpa [mkItem, mkRec] using hP.isoforms _ a ha hv, rfl, rfl, rfl, rfl, by simpa [mkItem, mkRec] using hP.alive _ a, ?_⟩
-    simpa [mkItem, alnSays] using hP.says _ a ha hv ignore dflt v k g
+    simpa [mkItem, alnSays] using hP.says _ a ha hv ignore dflt v k g hv1
   have hne : its.map (·.brec) ≠ [] := by
     obtain ⟨p, hp, hap⟩ := hcov a ha
     have : mkItem P p.1 (loadGenes genes (loadRegion true p)) a ∈ its := by
@@ -121,7 +124,7 @@ theorem one_record_per_alignment (genes : List GeneRec) (P : Proc) (all : List A
 /-- the events of the reads of `l`, and what they add up to -/
 theorem collect_counts (genes : List GeneRec) (P : Proc) (all : List Aln) (hP : Local P genes all)
     (out : List (Iv × List Aln)) (hrid : (all.map (·.rid)).Nodup) (hin : ∀ p ∈ out, ∀ a ∈ p.2, a ∈ all)
-    (hcov : ∀ a ∈ all, ∃ p ∈ out, a ∈ p.2) (ignore : Bool) (dflt : String) (v : Int) (k : CoordKey) (g : String) :
+    (hcov : ∀ a ∈ all, ∃ p ∈ out, a ∈ p.2) (ignore : Bool) (dflt : String) (v : Int) (hv1 : v = 1 ∨ v = -1) (k : CoordKey) (g : String) :
     ∀ l : List Aln, (∀ a ∈ l, a ∈ all) →
       ∃ evs, collectEvents (chrItems true genes P out) (l.map (·.rid)) = some evs ∧
         evs.countP (evSays ignore dflt v k g) = l.countP (alnSays P genes ignore dflt v k g) := by
@@ -130,7 +133,7 @@ theorem collect_counts (genes : List GeneRec) (P : Proc) (all : List Aln) (hP : 
   | nil => intro _; exact ⟨[], rfl, rfl⟩
   | cons a rest ih =>
     intro hl
-    obtain ⟨es, hes, hc⟩ := one_record_per_alignment genes P all hP out hrid hin hcov a (hl a (by simp)) ignore dflt v k g
+    obtain ⟨es, hes, hc⟩ := one_record_per_alignment genes P all hP out hrid hin hcov a (hl a (by simp)) ignore dflt v hv1 k g
     obtain ⟨evs, hevs, hcs⟩ := ih (fun b hb => hl b (by simp [hb]))
     refine ⟨es ++ evs, by simp only [List.map_cons, collectEvents, hes, hevs], ?_⟩
     rw [List.countP_append, hc, hcs, List.countP_cons]
@@ -141,7 +144,7 @@ theorem chromosome_events_defined (genes : List GeneRec) (P : Proc) (all : List 
     (out : List (Iv × List Aln)) (hrid : (all.map (·.rid)).Nodup) (hin : ∀ p ∈ out, ∀ a ∈ p.2, a ∈ all)
     (hcov : ∀ a ∈ all, ∃ p ∈ out, a ∈ p.2) :
     ∃ evs, chromosomeEvents true genes P out (all.map (·.rid)) = some evs := by
-  obtain ⟨evs, h, _⟩ := collect_counts genes P all hP out hrid hin hcov true "" 1 ("", 0, 0) "" all (fun _ h => h)
+  obtain ⟨evs, h, _⟩ := collect_counts genes P all hP out hrid hin hcov true "" 1 (Or.inl rfl) ("", 0, 0) "" all (fun _ h => h)
   exact ⟨evs, h⟩
 
 /-- **chromosome_row_counts** (THE COUNT CLAUSE PER CHROMOSOME, repaired loading).  `all` = the alignment records of the
@@ -161,10 +164,10 @@ theorem chromosome_row_counts (genes : List GeneRec) (P : Proc) (all : List Aln)
     (h : countAll coordKey FeatureInfo.merge ignore dflt feed = some st) (k : CoordKey) (g : String) :
     st.inclOf k g = all.countP (alnSays P genes ignore dflt 1 k g) ∧
     st.exclOf k g = all.countP (alnSays P genes ignore dflt (-1) k g) := by
-  have key : ∀ v, (feed.filter (fun ev => groupOf ignore dflt ev == g)).countP (marks coordKey v k) =
+  have key : ∀ v, (v = 1 ∨ v = -1) → (feed.filter (fun ev => groupOf ignore dflt ev == g)).countP (marks coordKey v k) =
       all.countP (alnSays P genes ignore dflt v k g) := by
-    intro v
-    obtain ⟨evs', h', hc⟩ := collect_counts genes P all hP out hrid hin hcov ignore dflt v k g all (fun _ h => h)
+    intro v hv1
+    obtain ⟨evs', h', hc⟩ := collect_counts genes P all hP out hrid hin hcov ignore dflt v hv1 k g all (fun _ h => h)
     have : evs' = evs := by
       unfold chromosomeEvents at hev; rw [h'] at hev; exact Option.some.inj hev
     subst this
@@ -174,15 +177,15 @@ theorem chromosome_row_counts (genes : List GeneRec) (P : Proc) (all : List Aln)
     apply List.countP_congr
     intro ev _
     simp [evSays, Bool.and_comm]
-  exact ⟨by rw [IsoVerif.Props.C13.include_counts_reads coordKey IsoVerif.Props.C13.hupd_merge ignore dflt feed st h hnd k g, key 1],
-         by rw [IsoVerif.Props.C13.exclude_counts_reads coordKey IsoVerif.Props.C13.hupd_merge ignore dflt feed st h hnd k g, key (-1)]⟩
+  exact ⟨by rw [IsoVerif.Props.C13.include_counts_reads coordKey IsoVerif.Props.C13.hupd_merge ignore dflt feed st h hnd k g, key 1 (Or.inl rfl)],
+         by rw [IsoVerif.Props.C13.exclude_counts_reads coordKey IsoVerif.Props.C13.hupd_merge ignore dflt feed st h hnd k g, key (-1) (Or.inr rfl)]⟩
 
 /-! ### the table-driven processing is `Local` (non-vacuity of the hypothesis; it is also what the driver runs) -/
 
 /-- answers that only name genes the alignment overlaps -/
 def AnswersLocal (genes : List GeneRec) (all : List Aln) (ans : Answers) : Prop :=
-  ∀ a ∈ all, (∀ m ∈ ans.hits a.rid, ∃ g ∈ genes, g.gid = m.2 ∧ overlaps a.iv g.span = true) ∧
-             (∀ m ∈ ans.marks a.rid, ∃ g ∈ genes, g.gid = m.1 ∧ overlaps a.iv g.span = true)
+  ∀ a ∈ all, (∀ m ∈ ans.hits a.rid, ∃ g ∈ genes, g.gid = m.2 ∧ overlaps (iv1 a) g.span = true) ∧
+             (∀ m ∈ ans.marks a.rid, ∃ g ∈ genes, g.gid = m.1 ∧ overlaps (iv1 a) g.span = true)
 
 /-! ### the code before the repair: both faces of the defect, on the model (replayed on the real code by the pipeline
     oracle: `split_dataset` variants `nested` and `readthrough`) -/
